@@ -104,6 +104,17 @@ def confirm_program(tier, t, v):
     sk0, ks, cs = C09.family(tier)[idx]
     sk = C12.number(sk0, [0]); kinds = dict(zip(leaf_ids(sk), ks)); conds = dict(zip(C09.ctrl_ids(sk), cs))
     text, spans = C09.source_of(sk, kinds, conds, dt)
+    mf = re.search(r'the finding `(This condition is always (?:true|false))` at statement (\d+)', v['msg'])
+    if mf:
+        from . import realbin
+        import tempfile, shutil
+        d = tempfile.mkdtemp(prefix='vc06_', dir=common.CACHE)
+        try:
+            open(os.path.join(d, 'a.circom'), 'w').write(text)
+            rc, out = realbin.run([os.path.join(d, 'a.circom')], d)
+        finally:
+            shutil.rmtree(d, ignore_errors=True)
+        return mf.group(1) in out, {'real binary prints it': mf.group(1) in out, 'exit': rc}, {'finding': mf.group(1)}
     mm = re.search(r'the (\w+) node of statement (\d+) is claimed to be (\S+),', v['msg'])
     if not mm: return None, 'unparsed claim', None
     kind, sid, val = mm.group(1), int(mm.group(2)), mm.group(3)
